@@ -306,7 +306,7 @@ def r2(ctx):
     for p in _parents(pn.call, cr.node):
         if isinstance(p, ast.For):
             loopvar = norm(p.target)
-        if isinstance(p, ast.ListComp) and comp is None:
+        if isinstance(p, (ast.ListComp, ast.GeneratorExp)) and comp is None:
             comp = p
     if loopvar is None and comp is not None and comp.generators and norm(comp.generators[0].iter) == cr.params[1] and isinstance(comp.generators[0].target, ast.Name):
         loopvar = comp.generators[0].target.id
